@@ -460,15 +460,12 @@ def case_key(case):
 def too_wide(s: str, limit=5000) -> bool:
     """harness-side filter: a candidate whose ranges would enumerate more than `limit` numbers is not evaluated"""
     import re
-    for piece in re.split(r"[,: ]", s):
-        if "-" in piece:
-            ab = piece.split("-")
-            if len(ab) == 2:
-                try:
-                    if int(ab[1], 0) - int(ab[0], 0) > limit:
-                        return True
-                except ValueError:
-                    pass
+    for m in re.finditer(r"(?=(?<![0-9A-Za-z_+])([0-9A-Za-z_+]+)\s*-\s*([0-9A-Za-z_+]+))", s):
+        try:
+            if int(m.group(2), 0) - int(m.group(1), 0) > limit:
+                return True
+        except ValueError:
+            pass
     return False
 
 
@@ -1117,6 +1114,15 @@ def shrink_uri(ctx, real):
             i, m = evaluate(c, what)
             if i != m:
                 cur = c
+        for k in list(cur["args"]):
+            for v in ("1", "0x1"):
+                if str(cur["args"][k]) == v:
+                    break
+                c = dict(cur, args={**cur["args"], k: v})
+                i, m = evaluate(c, what)
+                if i != m:
+                    cur = c
+                    break
         for p in (None, 0, 1):
             if cur["port"] == p:
                 break
